@@ -118,6 +118,13 @@ impl AsyncClient {
         Ok(Self { inner })
     }
 
+    /// Number of requests currently registered as awaiting a response
+    /// (verification hook: "no residue" after timeouts, cancellation and failures).
+    #[cfg(feature = "verif-hooks")]
+    pub fn verif_pending_len(&self) -> usize {
+        lock_pending_map(&self.inner.pending).len()
+    }
+
     fn next_request_id(&self) -> u64 {
         self.inner.next_id.fetch_add(1, Ordering::Relaxed)
     }
